@@ -433,6 +433,16 @@ pub fn fork(rel: Rel, a: S, b: S) -> bool {
     if let (Some(x), Some(y)) = (a.const_value(), b.const_value()) {
         return eval_rel(rel, x, y);
     }
+    // a literal compared with EPSILON: decided when f32 and f64 agree on the answer
+    if let Some(x) = a.const_value() {
+        if matches!(node_of(b), Node::Named("EPSILON")) {
+            let r64 = eval_rel(rel, x, f64::EPSILON);
+            let r32 = eval_rel(rel, x, f32::EPSILON as f64);
+            if r64 == r32 {
+                return r64;
+            }
+        }
+    }
     let limit_hit = CTX.with(|c| {
         let mut c = c.borrow_mut();
         if let Some(&d) = c.memo.get(&(rel, a.0, b.0)) {
